@@ -182,13 +182,13 @@ def resolver_arms(ctx, rid):
         expect_term(ctx, rid, "resolver/Compact.inner", lit, f.get("inner", ("opaque", "missing")), REC("A.type_param.id"), "compact inner type")
         expect_term(ctx, rid, "resolver/Compact.is_field", lit, f.get("is_field", ("opaque", "missing")), "P%d" % i_field, "is_field is the function's own flag")
         expect_term(ctx, rid, "resolver/Compact.path", lit, f.get("compact_type_path", ("opaque", "missing")),
-                    "Option::ok_or(P0.settings.compact_type_path,TypegenError::CompactPathNone)?", "compact path from settings or CompactPathNone")
+                    "ok_or(P0.settings.compact_type_path,TypegenError::CompactPathNone)?", "compact path from settings or CompactPathNone")
     arm, lit, f = slots("BitSequence", "BitVec")
     if f:
         expect_term(ctx, rid, "resolver/BitSequence.order", lit, f.get("bit_order_type", ("opaque", "missing")), REC("A.bit_order_type.id"), "bit order type")
         expect_term(ctx, rid, "resolver/BitSequence.store", lit, f.get("bit_store_type", ("opaque", "missing")), REC("A.bit_store_type.id"), "bit store type")
         expect_term(ctx, rid, "resolver/BitSequence.path", lit, f.get("decoded_bits_type_path", ("opaque", "missing")),
-                    "Option::ok_or(P0.settings.decoded_bits_type_path,TypegenError::DecodedBitsPathNone)?", "decoded-bits path from settings or DecodedBitsPathNone")
+                    "ok_or(P0.settings.decoded_bits_type_path,TypegenError::DecodedBitsPathNone)?", "decoded-bits path from settings or DecodedBitsPathNone")
     arm, lit, f = slots("Primitive", "Primitive")
     if f:
         expect_term(ctx, rid, "resolver/Primitive.def", lit, f.get("def", ("opaque", "missing")), "A", "primitive kind copied from the registry")
@@ -259,8 +259,8 @@ def cow_unwrap(ctx, rid):
     t = N.local_term(lid) if lid is not None else ("opaque", "?")
     i_id = q.param_index(fn, lambda t: t == "u32")
     got = show(t, 10 ** 5)
-    exp = ("mut[TypeGenerator::resolve_type(P0,P%d)?;=TypeGenerator::resolve_type(P0,Option::ok_or_else(<self>.type_params['0'].ty,|0|{TypegenError::InvalidType(%s)})?.id)?"
-           " if (Path::ident(<self>.path)==Some(ToString::to_string('Cow')))]") % (i_id, ANY)
+    R0 = "TypeGenerator::resolve_type(P0,P%d)?" % i_id
+    exp = "if((Path::ident(%s.path)==Some(ToString::to_string('Cow')))){TypeGenerator::resolve_type(P0,ok_or(%s.type_params['0'].ty,TypegenError::InvalidType(%s))?.id)?}else{%s}" % (R0, R0, ANY, R0)
     expect_term(ctx, rid, "cow-unwrap", m, got, exp, "Cow<T> is transparent: resolved type replaced by its first parameter's type")
 
 
@@ -314,7 +314,8 @@ def syn_arms(ctx, rid, strict_alloc=True):
     else:
         Nw = _norm(ctx, w)
         t = Nw.term(w["body"])
-        exp_w = "match(P0.0){TypePathInner::Parameter($)=>Type::Path(T[#0](P0.0@TypePathInner::Parameter.0));TypePathInner::Type($)=>TypePathType::to_syn_type(P0.0@TypePathInner::Type.0,%s)}" % ("P1" if strict_alloc else ANY)
+        exp_w = q.mk_match("P0.0", [("TypePathInner::Parameter($)", "Type::Path(T[#0](P0.0@TypePathInner::Parameter.0))"),
+                                    ("TypePathInner::Type($)", "TypePathType::to_syn_type(P0.0@TypePathInner::Type.0,%s)" % ("P1" if strict_alloc else ANY))])
         expect_term(ctx, rid, "syn/wrapper", w["sp"], t, exp_w, "parameter -> its own tokens; concrete type -> conversion with the same alloc path")
     tp = [b for b in q.fn_by_suffix(ctx.P, "quote::ToTokens>::to_tokens", "scale_typegen") if "TypeParameter as" in b["path"] and "TypeParameters" not in b["path"]]
     if len(tp) == 1:
@@ -500,7 +501,7 @@ def enum_struct_ir(ctx, rid):
         expect_term(ctx, rid, "struct-ir/docs", structs[0], f["docs"], docs_exp, "type docs")
     # early return for non struct/enum
     bt = N.term(fn["body"], syms)
-    ok = bt[0] == "early" and show(bt[1][0][0]) == "Not(match(%s.type_def){TypeDef::Composite(_)|TypeDef::Variant(_)=>true;_=>false})" % TY \
+    ok = bt[0] == "early" and show(bt[1][0][0]) == "Not(let TypeDef::Composite(_)|TypeDef::Variant(_)=%s.type_def)" % TY \
         and show(bt[1][0][1]) == "return Ok(v1::None)"
     ctx.expect(ok, rid, "type-ir/only-struct-enum", fn["sp"], "an IR is built iff the definition is Composite or Variant",
                "early-return guard: " + (show(bt[1][0][0]) + " => " + show(bt[1][0][1]) if bt[0] == "early" else show(bt)[:200]))
@@ -599,7 +600,7 @@ def item_templates(ctx, rid):
     E = "P0.kind@TypeIRKind::Enum.0"
     exp_struct = ("{Extend::extend(P1,T[#0 #1 pub struct #2 #3 #4 #5](P0.derives,TypeIR::docs(P0),TypeIR::ident(P0),P0.type_params,"
                   "CompositeIR::struct_field_tokens(%s,TypeParameters::unused_params_phantom_data(P0.type_params),P0.insert_codec_attributes,P2),"
-                  "then(match(%s.kind){CompositeIRKind::NoFields|CompositeIRKind::Unnamed(_)=>true;_=>false},T[;]())))}") % (S, S)
+                  "then(let CompositeIRKind::NoFields|CompositeIRKind::Unnamed(_)=%s.kind,T[;]())))}") % (S, S)
     if "Struct" in arms:
         expect_term(ctx, rid, "item/struct", fn["sp"], arms["Struct"], exp_struct,
                     "`#derives #docs pub struct #ident #generics #fields #semi`; `;` iff the struct is a unit or tuple struct; marker from the unused-parameter set")
@@ -621,7 +622,7 @@ def item_templates(ctx, rid):
         if h is None:
             ctx.bad(rid, "missing-anchor/TypeIR::" + nm, "", "helper TypeIR::%s not found" % nm)
             continue
-        exp_h = "match(P0.kind){TypeIRKind::Struct($)=>P0.kind@TypeIRKind::Struct.0.%s;TypeIRKind::Enum($)=>P0.kind@TypeIRKind::Enum.0.%s}" % (fld, fld)
+        exp_h = q.mk_match("P0.kind", [("TypeIRKind::Struct($)", "P0.kind@TypeIRKind::Struct.0.%s" % fld), ("TypeIRKind::Enum($)", "P0.kind@TypeIRKind::Enum.0.%s" % fld)])
         expect_term(ctx, rid, "item/helper-" + nm, h["sp"], _norm(ctx, h).term(h["body"]), exp_h, "item %s taken from the struct / enum IR" % nm)
 
 
@@ -638,21 +639,22 @@ def field_templates(ctx, rid, strict_alloc=True):
     i_st = q.param_index(sf, lambda t: t.endswith("TypeGeneratorSettings"))
     PH, FL, ST = "P%d" % i_ph, "P%d" % i_fl, "P%d" % i_st
     SKIP = "then(%s,T[# [ codec ( skip ) ]]())" % FL
-    exp_s = ("match(P0.kind){CompositeIRKind::NoFields=>if(let v1::Some($)=%s){T[( pub #0 )](%s@v1::Some.0)}else{T[]()};"
-             "CompositeIRKind::Named($)=>T[{ #( #0 , )* #1 }](Iterator::map(P0.kind@CompositeIRKind::Named.0,|1|{T[#0 pub #1 : #2](%s,C1_0.0,ToTokensWithSettings::to_token_stream(C1_0.1,%s))}),"
-             "Option::map(%s,|1|{T[#0 pub __ignore : #1](%s,C1_0)}));"
-             "CompositeIRKind::Unnamed($)=>T[( #( #0 , )* #1 )](Iterator::map(P0.kind@CompositeIRKind::Unnamed.0,|1|{T[#0 pub #1](%s,ToTokensWithSettings::to_token_stream(C1_0,%s))}),"
-             "Option::map(%s,|1|{T[#0 pub #1](%s,C1_0)}))}") % (PH, PH, CA % ("C1_0.1", FL), ST, PH, SKIP, CA % ("C1_0", FL), ST, PH, SKIP)
+    exp_s = q.mk_match("P0.kind", [
+        ("CompositeIRKind::NoFields", "if(let v1::Some($)=%s){T[( pub #0 )](%s@v1::Some.0)}else{T[]()}" % (PH, PH)),
+        ("CompositeIRKind::Named($)", "T[{ #( #0 , )* #1 }](Iterator::map(P0.kind@CompositeIRKind::Named.0,|1|{T[#0 pub #1 : #2](%s,C1_0.0,ToTokensWithSettings::to_token_stream(C1_0.1,%s))}),"
+                                      "Option::map(%s,|1|{T[#0 pub __ignore : #1](%s,C1_0)}))" % (CA % ("C1_0.1", FL), ST, PH, SKIP)),
+        ("CompositeIRKind::Unnamed($)", "T[( #( #0 , )* #1 )](Iterator::map(P0.kind@CompositeIRKind::Unnamed.0,|1|{T[#0 pub #1](%s,ToTokensWithSettings::to_token_stream(C1_0,%s))}),"
+                                        "Option::map(%s,|1|{T[#0 pub #1](%s,C1_0)}))" % (CA % ("C1_0", FL), ST, PH, SKIP))])
     expect_term(ctx, rid, "fields/struct", sf["sp"], Ns.term(sf["body"]), exp_s,
                 "unit: `(pub #marker)` iff marker; named: `{ #(#[codec(compact)]? pub name: ty,)* #[codec(skip)]? pub __ignore: marker }`; tuple likewise; "
                 "compact attribute iff is_compact && flag; fields in IR order")
     j_fl = q.param_index(ef, lambda t: t == "bool")
     j_st = q.param_index(ef, lambda t: t.endswith("TypeGeneratorSettings"))
     FL2, ST2 = "P%d" % j_fl, "P%d" % j_st
-    exp_e = ("match(P0.kind){CompositeIRKind::NoFields=>T[]();"
-             "CompositeIRKind::Named($)=>T[{ #( #0 , )* }](Iterator::map(P0.kind@CompositeIRKind::Named.0,|1|{T[#0 #1 : #2](%s,C1_0.0,ToTokensWithSettings::to_token_stream(C1_0.1,%s))}));"
-             "CompositeIRKind::Unnamed($)=>T[( #( #0 , )* )](Iterator::map(P0.kind@CompositeIRKind::Unnamed.0,|1|{T[#0 #1](%s,ToTokensWithSettings::to_token_stream(C1_0,%s))}))}") % (
-        CA % ("C1_0.1", FL2), ST2, CA % ("C1_0", FL2), ST2)
+    exp_e = q.mk_match("P0.kind", [
+        ("CompositeIRKind::NoFields", "T[]()"),
+        ("CompositeIRKind::Named($)", "T[{ #( #0 , )* }](Iterator::map(P0.kind@CompositeIRKind::Named.0,|1|{T[#0 #1 : #2](%s,C1_0.0,ToTokensWithSettings::to_token_stream(C1_0.1,%s))}))" % (CA % ("C1_0.1", FL2), ST2)),
+        ("CompositeIRKind::Unnamed($)", "T[( #( #0 , )* )](Iterator::map(P0.kind@CompositeIRKind::Unnamed.0,|1|{T[#0 #1](%s,ToTokensWithSettings::to_token_stream(C1_0,%s))}))" % (CA % ("C1_0", FL2), ST2))])
     expect_term(ctx, rid, "fields/enum", ef["sp"], Ne.term(ef["body"]), exp_e,
                 "variant fields: same slots as the struct emitter without `pub` and without marker (sibling agreement)")
     ca = q.fn1(ctx.P, "CompositeFieldIR::compact_attr", "scale_typegen")
